@@ -111,6 +111,11 @@ type c01Case struct {
 	// 4 KiB), so the read of the file lasts longer than the reader's periodic
 	// housekeeping (truncation check every 3 s).
 	StallS float64
+	// StallAt: offset of the output at which the consumer stalls. With an
+	// offset near the end the file is read to its end while its last lines
+	// are still queued in the session: the close of the session has to wait
+	// for a consumer that does not read anything for StallS seconds.
+	StallAt int64
 }
 
 // genContent builds file content from byte-class segments.
@@ -395,6 +400,36 @@ func c01(r *vlib.Run) int {
 		c.Classes = []string{"slow-consumer", "numbered"}
 		c.StallS = 3.6
 	}
+	// consumer stalls for 7.5 s when only the tail of the file is outstanding
+	// (serverless: the last 5-9 KB = pipe + < 100 queued lines; through a
+	// server: 60 KB lines, so that the session queue of 100 lines is larger
+	// than everything the SSH transport buffers)
+	nTail := r.N(3, 12)
+	for k := 0; k < nTail && nSlow+k < len(cases); k++ {
+		c := cases[(k*len(cases)/nTail+len(cases)/7)%len(cases)]
+		if c.StallS > 0 {
+			continue
+		}
+		c.Trigger, c.NonPlain = false, false
+		c.Container = []string{"", ".gz", ".zst"}[k%3]
+		c.M = 0
+		c.SSH = fleets[0] != nil && k%3 == 2
+		var b bytes.Buffer
+		if c.SSH {
+			for q := 0; q < 130+k; q++ {
+				fmt.Fprintf(&b, "%06d %s\n", q, strings.Repeat("long line through a server ", 2300))
+			}
+			c.StallAt = 65536
+		} else {
+			for q := 0; q < 3000+91*k; q++ {
+				fmt.Fprintf(&b, "%06d stalled consumer line the quick brown fox jumps over the lazy dog\n", q)
+			}
+			c.StallAt = int64(b.Len() - 5000 - 1300*(k%4))
+		}
+		c.Content = b.Bytes()
+		c.Classes = []string{"consumer-stalls-at-the-tail", "numbered"}
+		c.StallS = 7.5
+	}
 	dir := r.Dir("c01files")
 	vlib.Parallel(n, 12, func(i int) {
 		c := cases[i]
@@ -423,7 +458,7 @@ func c01Run(r *vlib.Run, i int, c *c01Case, path string, fl *fleet, cfg string) 
 		full := append(fl.ClientArgs(), "--logger", "stdout", "--logLevel", "error")
 		var out []byte
 		res, out = runPaced(vlib.Cmd{Path: r.Bin("dcat"), Args: append(full, args...), Env: fl.ClientEnv(), Dir: fl.Home},
-			pacing{Kind: "stall", StallAt: 0, StallS: c.StallS}, 4096)
+			pacing{Kind: "stall", StallAt: c.StallAt, StallS: c.StallS}, 4096)
 		res.Stdout = out
 	case c.StallS > 0:
 		home := serverlessHome(r)
@@ -433,7 +468,7 @@ func c01Run(r *vlib.Run, i int, c *c01Case, path string, fl *fleet, cfg string) 
 		full := append([]string{"--cfg", cfg, "--logger", "stdout", "--logLevel", "error"}, args...)
 		var out []byte
 		res, out = runPaced(vlib.Cmd{Path: r.Bin("dcat"), Args: full, Env: []string{"HOME=" + home}, Dir: home},
-			pacing{Kind: "stall", StallAt: 0, StallS: c.StallS}, 4096)
+			pacing{Kind: "stall", StallAt: c.StallAt, StallS: c.StallS}, 4096)
 		res.Stdout = out
 	case c.SSH:
 		res = runFleet(r, fl, "dcat", args, nil)
